@@ -145,7 +145,9 @@ func execExp(f []string) vlib.Res {
 		cache.VerifShift(expCache, time.Duration(d)*time.Second)
 		expNow += d
 		return vlib.Res{Impl: "t=" + itoa(int(expNow))}
-	case "put", "put3":
+	case "put", "put3", "reput":
+		// "reput": the same kind of bundle published by the background refresh's
+		// write-back — straight into the Store, no lookup in front of it
 		b := &expBundle{admitT: expNow, zone: parseName(f[2]), cut: -1}
 		nx, subject, qtype := f[3] == "nx", parseName(f[4]), uint16(atoi(f[5]))
 		sp := strings.SplitN(f[6], ",", 3)
@@ -213,6 +215,18 @@ func execExp(f []string) vlib.Res {
 		req.SetEdns0(1232, true)
 		w := mock.NewWriter("udp", "192.0.2.9:4242")
 		ch := middleware.NewChain([]middleware.Handler{expCache, expStub})
+		if f[1] == "reput" {
+			m.SetQuestion(subject.pres(), qtype)
+			m.Response = true
+			if nx {
+				m.Rcode = dns.RcodeNameError
+			}
+			cache.VerifC02WriteBack(expCache, m, subject.pres(), zone, false, expStub.cut)
+			if nx {
+				expDenied = append(expDenied, subject.fold())
+			}
+			return vlib.Res{Impl: "ok"}
+		}
 		calls := expStub.calls
 		ch.Reset(w, req)
 		ch.Next(context.Background())
@@ -414,9 +428,30 @@ func genExpBundle(r *vlib.R, p expPlan, now int64, span int, nx bool, seq int) (
 	if nx {
 		kind = "nx"
 	}
-	soa := fmt.Sprintf("%d,%d,%s", 10*(1+r.Intn(60)), 10*(1+r.Intn(60)), sigsStr(genSigsExp(r, now)))
+	soaSigs := genSigsExp(r, now)
+	soa := fmt.Sprintf("%d,%d,%s", 10*(1+r.Intn(60)), 10*(1+r.Intn(60)), sigsStr(soaSigs))
+	// the same proof again, re-signed later (same names, same number of signatures:
+	// same packed size), as a background refresh would publish it
+	expRefresh = func(at int64) string {
+		resign := func(old []expSig) []expSig {
+			out := make([]expSig, len(old))
+			for i, s := range old {
+				out[i] = expSig{ttl: s.ttl, orig: s.orig, exp: at + int64(10*(5+r.Intn(40)))}
+			}
+			return out
+		}
+		var ss2 []string
+		for _, s := range sets {
+			ss2 = append(ss2, fmt.Sprintf("%s|%s|%s|%d|%s", s.rec.owner, s.rec.next, typesStr(s.rec.types), 10*(20+r.Intn(40)), sigsStr(resign(s.sigs))))
+		}
+		soa2 := fmt.Sprintf("%d,%d,%s", 10*(20+r.Intn(40)), 10*(20+r.Intn(40)), sigsStr(resign(soaSigs)))
+		return fmt.Sprintf("exp reput %s %s %s %d %s - %s", p.zone, kind, subject, qtype, soa2, strings.Join(ss2, ";"))
+	}
 	return fmt.Sprintf("exp put %s %s %s %d %s %s %s", p.zone, kind, subject, qtype, soa, cut, strings.Join(ss, ";")), subject
 }
+
+// expRefresh re-issues the last generated bundle (see genExpBundle).
+var expRefresh func(at int64) string
 
 // lookAlikes: names OUTSIDE the subtree of d whose presentation text ends with
 // d's text: d's leaf label glued behind another label's octets with a literal
@@ -622,6 +657,25 @@ func genExpCase(r *vlib.R, emit func(string)) int {
 		emit("exp adv 5")
 		now += 5
 		cnt++
+		// the same denial proven again (re-signed) while the first copy is still
+		// resident, then time runs past the FIRST copy's deadlines
+		if r.Chance(1, 2) && expRefresh != nil {
+			emit(expRefresh(now))
+			cnt++
+			for j := 0; j < 2; j++ {
+				d := int64(5 + 10*r.Intn(12))
+				if j > 0 {
+					d = int64(10 * (1 + r.Intn(12)))
+				}
+				emit(fmt.Sprintf("exp adv %d", d))
+				now += d
+				cnt++
+				asks()
+			}
+			emit("exp adv 5")
+			now += 5
+			cnt++
+		}
 	}
 	return cnt
 }
